@@ -91,6 +91,28 @@ def check_rule(res, tag, key, shape, coord, w, k, kz):
     return ok
 
 
+SIZE = dict(SEG=(4.0,), TRI=(2.0, 1.0), QUAD=(2.0, 1.0), TETRA=(2.0, 1.0, 1.5), HEXA=(2.0, 1.0, 1.5), PRISM=(2.0, 1.0, 1.5))
+
+
+def box_integral(size, A, t, f):
+    """Integral of f(x, y, z) over the image x = A u + t of the box prod [0, size_i] (12-point tensor Gauss rule on the
+    box: exact for the polynomials used here), independent of any mesh."""
+    d = len(size)
+    xg, wg = np.polynomial.legendre.leggauss(12)
+    grids = np.meshgrid(*[(xg + 1) / 2 * s for s in size], indexing="ij")
+    wts = np.ones_like(grids[0])
+    for ax, s in enumerate(size):
+        shp = [1] * d
+        shp[ax] = -1
+        wts = wts * (wg * s / 2).reshape(shp)
+    U = np.zeros((grids[0].size, 3))
+    for ax in range(d):
+        U[:, ax] = grids[ax].ravel()
+    X = U @ np.asarray(A, float).T + np.asarray(t, float)
+    vals = np.broadcast_to(np.asarray(f(X[:, 0], X[:, 1], X[:, 2]), float), (X.shape[0],))
+    return float((wts.ravel() * vals).sum() * abs(np.linalg.det(np.asarray(A, float)[:d, :d])))
+
+
 def qs_float(ans):
     a, b, d = ans.split()
     return float(parse_frac(a)) + float(parse_frac(b)) * math.sqrt(int(d))
@@ -236,6 +258,80 @@ def main():
             if not (abs(got - exact) <= 1e-10 * (1 + abs(exact))):
                 res.fail(f"mesh={et} integral", f"{et}: Integrate_e(x^{expo}) = {got!r}, exact {exact!r}",
                          dict(elem=et, A=A.tolist(), t=t.tolist(), exponents=expo, value=got, exact=exact))
+
+    # ---------- the same exactness whatever was asked of the mesh before, and whatever its orientation ----------
+    # A straight-sided mesh mapped by an affine map of positive or negative determinant (mirror images, meshes read
+    # with the other node ordering).  Before integrating, a caller interpolates a nodal field at points of the domain
+    # (public Mesh.Evaluate_dofsValues_at_coordinates; the affine field a.x + b is reproduced exactly by every element
+    # type) or, the other way round, integrates, interpolates, and integrates again.  Measures, centroids and integrals
+    # of 1, x, y, z, xy are compared with closed forms on the image of the box, never with an earlier answer.
+    hist_types = list(M.ALL)
+    polys = dict(one=lambda x, y, z: 1, x=lambda x, y, z: x, y=lambda x, y, z: y, z=lambda x, y, z: z, xy=lambda x, y, z: x * y)
+    for et in hist_types:
+        d = M.dim_of(et)
+        size = SIZE["".join(c for c in et if not c.isdigit())]
+        while True:
+            A0 = np.eye(3)
+            A0[:d, :d] = [[rng.randint(-4, 4) / 4 for _ in range(d)] for _ in range(d)]
+            if not (abs(np.linalg.det(A0)) <= 0.2):
+                break
+        t = np.zeros(3)
+        t[:d] = [rng.randint(-8, 8) / 4 for _ in range(d)]
+        coef = np.zeros(3)
+        coef[:d] = [rng.randint(-6, 6) / 2 for _ in range(d)]
+        b0 = rng.randint(-4, 4) / 2
+        upts = np.zeros((5, 3))
+        # generic interior points, and every element offered as a candidate (`elements` argument): which elements the
+        # library would search by itself on a sheared mesh is not this property's business
+        upts[:, :d] = [[rng.uniform(0.05, 0.95) * s for s in size] for _ in range(5)]
+        for orient in (1, -1):
+            A = A0.copy()
+            if np.sign(np.linalg.det(A0)) != orient:
+                A[:, 0] = -A[:, 0]  # mirror image
+            names = [n for n in polys if not (n == "z" and d < 3) and not (n in ("y", "xy") and d < 2)]
+            exact = {n: box_integral(size, A, t, polys[n]) for n in names}
+            pts = upts @ A.T + t
+            for order in ("interpolate-then-integrate", "integrate-interpolate-integrate"):
+                ident = dict(elem=et, A=A.tolist(), t=t.tolist(), orientation=orient, history=order, points=pts.tolist(),
+                             field=dict(a=coef.tolist(), b=b0))
+                res.case((et, "history", orient, order))
+                try:
+                    mesh = M.affine(M.mesh_of(et), A, t)
+                    groups = M.main_groups(mesh)
+                    first = None
+                    if order != "interpolate-then-integrate":
+                        first = {n: float(sum(g.Integrate_e(polys[n]).sum() for g in groups)) for n in names}
+                    field = np.asarray(mesh.coord, float) @ coef + b0
+                    vals = np.asarray(mesh.Evaluate_dofsValues_at_coordinates(pts, field, np.arange(mesh.Ne)), float).ravel()
+                    got = {n: float(sum(g.Integrate_e(polys[n]).sum() for g in groups)) for n in names}
+                    meas = float([mesh.length, mesh.area, mesh.volume][d - 1] if d > 1 else sum(g.length for g in groups))
+                    cen = np.asarray(mesh.center, float)
+                except Exception as e:  # noqa: BLE001
+                    res.fail(f"mesh={et} history raises", f"{et} ({order}, det A {'>' if orient > 0 else '<'} 0): {type(e).__name__}: {e}", ident)
+                    continue
+                vexp = pts @ coef + b0
+                # (1e-6: the inverse isoparametric map is iterative for some types and stops near 1e-8; the accuracy of point
+                #  evaluation is not this property's subject, the step only has to be a real, successful query)
+                if vals.shape != vexp.shape or not (np.abs(vals - vexp).max() <= 1e-6 * (1 + np.abs(vexp).max())):
+                    res.fail(f"mesh={et} history interpolation",
+                             f"{et}: the nodal field a.x + b interpolated at {len(pts)} points of the domain gives {vals.tolist()}, exact {vexp.tolist()}", ident)
+                for label, dct in (("before", first), ("after", got)):
+                    if dct is None:
+                        continue
+                    badn = [n for n in names if not (abs(dct[n] - exact[n]) <= 1e-10 * (1 + abs(exact[n])))]
+                    if badn:
+                        res.fail(f"mesh={et} history integral",
+                                 f"{et} (det A {'>' if orient > 0 else '<'} 0), integrals {label} a field was interpolated at points of the mesh: "
+                                 + ", ".join(f"int {n} = {dct[n]!r} (exact {exact[n]!r})" for n in badn),
+                                 dict(ident, when=label, values=dct, exact=exact))
+                        break
+                if not (abs(meas - exact["one"]) <= 1e-11 * exact["one"]):
+                    res.fail(f"mesh={et} history measure", f"{et} (det A {'>' if orient > 0 else '<'} 0, {order}): measure {meas!r}, exact {exact['one']!r}",
+                             dict(ident, measure=meas, exact=exact["one"]))
+                cexp = np.array([exact.get(n, 0.0) for n in ("x", "y", "z")]) / exact["one"]
+                if not (np.abs(cen - cexp).max() <= 1e-10 * (1 + np.abs(cexp).max())):
+                    res.fail(f"mesh={et} history center", f"{et} (det A {'>' if orient > 0 else '<'} 0, {order}): center {cen.tolist()}, exact {cexp.tolist()}",
+                             dict(ident, center=cen.tolist(), exact=cexp.tolist()))
 
     # ---------- the rules offered do not depend on what callers did with the arrays handed out before ----------
     # A caller folds a thickness into "its" weights and centres "its" points, in place (read-only arrays
